@@ -70,6 +70,12 @@ def run(tier):
                     L.rec_write(rec, f, key2, False, wd)
             except OverflowError:
                 continue
+        # the edge shapes of C01 (same object listed twice, mapping types other than dict, ...) byte-exact
+        from .c01 import edge_files
+        for f in edge_files(r)[-12:]:
+            key = L.gen_key(r)
+            L.rec_to_binary(rec, f, r.choice(offs), key)
+            L.rec_write(rec, f, key, False, wd)
         # more than 255 components: the entry MAC is chained from the 1-based entry index as a 128-bit big-endian number
         big = L.Bf3File({}, [L.mk_comp({}, bytes([1 + (j % 255)])) for j in range(258 if tier == "quick" else 300)])
         L.rec_to_binary(rec, big, 5, L.gen_key(r), _cost=60)
